@@ -1100,6 +1100,89 @@ def gen_asm_frames_win():
     return "".join(out)
 
 
+# ---------------------------------------------------------------------------
+# API surface: every function item of the modelled Rust files, qualified by its impl block
+# ---------------------------------------------------------------------------
+API_FILES = ["src/lib.rs", "src/hazmat.rs", "src/traits.rs", "src/guts.rs", "src/io.rs", "src/join.rs"]
+
+
+def rust_fn_items(rel):
+    """['<impl header>::<fn>' | '<fn>'] of a rustfmt-formatted file, in source order; nested fns are qualified by the
+    enclosing top-level item; test modules, the verification hooks (cfg blake3_team_blake3_verif, names verif_*) and
+    macro bodies are skipped."""
+    text = src(rel)
+    text = re.sub(r"//[^\n]*", "", text)
+    text = re.sub(r"/\*.*?\*/", " ", text, flags=re.S)
+    out, ctx, skip_depth, pending_skip = [], None, None, False
+    depth = 0
+    for line in text.split("\n"):
+        stripped = line.strip()
+        if depth == 0 or (ctx is not None and depth == 1):
+            if re.match(r"#\[cfg\((test|blake3_team_blake3_verif)\)\]", stripped) or \
+                    re.match(r"#\[cfg\(all\(.*blake3_team_blake3_verif", stripped):
+                pending_skip = True
+        opens, closes = line.count("{"), line.count("}")
+        if skip_depth is None:
+            if depth == 0:
+                m = re.match(r"(?:unsafe )?impl(?:<[^>]*>)? (.+?) \{", stripped) or re.match(r"(?:pub )?trait (\w+)", stripped)
+                if m and not pending_skip:
+                    ctx = re.sub(r"\s+", " ", m.group(1).strip())
+                    ctx = re.sub(r"<'\w+>", "", ctx)
+                elif re.match(r"(pub(\(crate\))? )?mod \w+ \{", stripped) or re.match(r"macro_rules!", stripped):
+                    pending_skip = True
+            m = re.search(r"\bfn (\w+)", stripped)
+            if m and not stripped.startswith(("//", "*")):
+                name = m.group(1)
+                if pending_skip or name.startswith(("verif_", "test_")):
+                    if opens > closes:
+                        skip_depth = depth
+                    pending_skip = False
+                else:
+                    top = depth == 0 or (ctx is not None and depth == 1)
+                    if top:
+                        out.append((ctx + "::" if ctx and depth == 1 else "") + name)
+                        last_top = out[-1]
+                    else:
+                        out.append(last_top + "::" + name)
+            elif pending_skip and opens > closes:
+                skip_depth = depth
+                pending_skip = False
+            elif pending_skip and stripped and not stripped.startswith("#") and opens == closes and stripped.endswith(";"):
+                pending_skip = False
+        depth += opens - closes
+        if skip_depth is not None and depth <= skip_depth:
+            skip_depth = None
+        if depth == 0:
+            ctx = None if stripped == "}" else ctx
+    return out
+
+
+def gen_api():
+    out = ["(* GENERATED by tools/gen_coq.py from the /repo working tree. Do not edit. *)\n"
+           "From Coq Require Import String List.\nImport ListNotations.\nOpen Scope string_scope.\n\n"
+           "(* every function item of the modelled Rust files, qualified by its impl block, in source order *)\n"]
+    def emit_list(ident, items):
+        out.append("Definition %s : list string :=\n  [%s].\n\n" % (ident, ";\n   ".join('"%s"' % i.replace('"', "'") for i in items)))
+    for rel in API_FILES:
+        items = rust_fn_items(rel)
+        base = os.path.basename(rel).replace(".rs", "")
+        if base != "lib":
+            emit_list("api_" + base, items)
+            continue
+        # lib.rs is split by what the items belong to: Debug/Zeroize impls (C17), the Hash value type (C14), the
+        # OutputReader (C03), everything else = the hashing core (C01/C02/C10)
+        secret = [i for i in items if "fmt::Debug for" in i or "Zeroize for" in i]
+        rest = [i for i in items if i not in secret]
+        hashv = [i for i in rest if re.search(r"(^|for )(Hash|HexError)::", i) or i.startswith(("From<Hash>", "From<[u8; OUT_LEN]> for Hash"))]
+        reader = [i for i in rest if re.search(r"(^|for )OutputReader::", i)]
+        core = [i for i in rest if i not in hashv and i not in reader]
+        emit_list("api_lib_secret", secret)
+        emit_list("api_lib_hash", hashv)
+        emit_list("api_lib_reader", reader)
+        emit_list("api_lib_core", core)
+    return "".join(out)
+
+
 def write_if_changed(path, text):
     try:
         with open(path) as f:
@@ -1213,7 +1296,8 @@ def gen_globals(c_objects, rs_archives, rs_crate="blake3", hook_prefixes=()):
 
 GENERATORS = [("GenConsts.v", gen_consts), ("GenFormulas.v", gen_formulas), ("GenTestVectors.v", gen_test_vectors),
               ("GenDispatch.v", gen_dispatch),
-              ("GenAsmFrames.v", gen_asm_frames)]
+              ("GenAsmFrames.v", gen_asm_frames),
+              ("GenApi.v", gen_api)]
 
 
 def main():
